@@ -291,7 +291,8 @@ def conds(tier):
                                                               P("v", "int", 0, 2), P("h", "int", 0, 3), P("nf", "bool")]
         cs.append(Cond("flat-rank%d" % rank, "harness.c07:flat", ps, fixed={"rank": rank},
                        pre=["mk or (v == 0 and h == 0 and not nf)"] + (["not nf and (not mk or v == 1)"] if q else []),
-                       shard=["opt", "mk"] + ([] if q else ["h"]), skip=(lambda sf: sf["mk"]) if (q and rank >= 6) else None,
+                       shard=["opt", "mk"] + ([] if q else ["h"]),
+                       skip=(lambda sf: sf["mk"]) if (q and rank >= 6) else (lambda sf: (not sf["mk"]) and sf.get("h", 0) > 0),
                        timeout=600 if q else 3000, functions=FUNCS[:8],
                        note="right-hand sides with %d elements" % rank))
     for (m, n) in [(2, 3), (2, 4)]:
